@@ -597,8 +597,10 @@ def instantiate(r, typed, kinds):
     return go(typed)
 
 
-def enumerate_tuples(r, n_ops, shapes, full_kinds, sample=None):
-    """yield (ops, shape name, tree) for every type-correct typing; one-factor operand kind coverage when full_kinds"""
+def enumerate_tuples(r, n_ops, shapes, full_kinds, stats, sample=None):
+    """generator of (ops, shape name, tree) for every type-correct typing of every operator tuple x shape.
+    full_kinds: "cartesian" = every combination of operand kinds over the leaves; True = one-factor coverage
+    (every leaf position x every kind, the other leaves random); False = one tree with random kinds."""
     combos = list(itertools.product(ALL_OPS, repeat=n_ops))
     table = SHAPES2 if n_ops == 2 else SHAPES3
     plan = []
@@ -616,9 +618,8 @@ def enumerate_tuples(r, n_ops, shapes, full_kinds, sample=None):
     total = len(plan)
     if sample is not None and sample < len(plan):
         plan = r.sample(plan, sample)
-    stats = {"operator_tuple_x_shape_combinations": typable + untypable, "type_correct": typable, "without_any_typing": untypable,
-             "typed_shapes_total": total, "typed_shapes": len(plan), "undefined_division_redrawn": 0, "dropped": 0}
-    out = []
+    stats.update({"operator_tuple_x_shape_combinations": typable + untypable, "type_correct": typable, "without_any_typing": untypable,
+                  "typed_shapes_total": total, "typed_shapes": len(plan), "undefined_division_redrawn": 0, "dropped": 0, "trees": 0})
     for ops, sname, ty in plan:
         lts = leaves_of(ty, [])
         jobs = []
@@ -652,8 +653,8 @@ def enumerate_tuples(r, n_ops, shapes, full_kinds, sample=None):
             if tree is None:
                 stats["dropped"] += 1
                 continue
-            out.append((ops, sname, tree))
-    return out, stats
+            stats["trees"] += 1
+            yield ops, sname, tree
 
 
 # =====================================================================================================
@@ -927,35 +928,29 @@ def run(ctx):
     plain = build.get("plain")
     quick = ctx.quick()
     BATCH = 24
-    with Scratch("c07") as sc:
-        import sys
-        sys.setrecursionlimit(20000)
-        ctxs = ["let", "return", "set", "if"]
-        items = []          # (group, Tree, meta)
-        enum_stats = {}
-        # ---- pairs: always exhaustive ------------------------------------------------------------------
-        pairs, st = enumerate_tuples(ctx.rng("pairs"), 2, ["left-comb", "right-nested"], full_kinds=True if quick else "cartesian")
-        enum_stats["pairs"] = st
-        # ---- triples -----------------------------------------------------------------------------------
-        if quick:
-            triples, st3 = enumerate_tuples(ctx.rng("triples"), 3, list(SHAPES3), full_kinds=False, sample=300)
-            enum_stats["triples_sampled"] = st3
-        else:
-            triples, st3 = enumerate_tuples(ctx.rng("triples"), 3, ["left-comb", "right-nested"], full_kinds=True)
-            enum_stats["triples"] = st3
-            more, st3b = enumerate_tuples(ctx.rng("triples-mixed"), 3, ["balanced", "left-of-right", "right-of-left"], full_kinds=True)
-            enum_stats["triples_mixed_shapes"] = st3b
-            triples += more
+    CHUNK = 6000          # trees in memory at a time (a big heap makes every fork of the checker slow)
+    import sys
+    sys.setrecursionlimit(20000)
+    ctxs = ["let", "return", "set", "if"]
+    enum_stats = {"pairs": {}, "triples": {}, "triples_mixed_shapes": {}, "random": {"trees": 0}}
+
+    def stream():
         ci = 0
-        for grp, lst in (("pair", pairs), ("triple", triples)):
-            for ops, sname, tree in lst:
-                items.append((grp, tree, ctxs[ci % 4]))
+        for ops, sname, tree in enumerate_tuples(ctx.rng("pairs"), 2, ["left-comb", "right-nested"], True if quick else "cartesian", enum_stats["pairs"]):
+            ci += 1
+            yield "pair", tree, ctxs[ci % 4]
+        if quick:
+            gens = [enumerate_tuples(ctx.rng("triples"), 3, list(SHAPES3), False, enum_stats["triples"], sample=300)]
+        else:
+            gens = [enumerate_tuples(ctx.rng("triples"), 3, ["left-comb", "right-nested"], True, enum_stats["triples"]),
+                    enumerate_tuples(ctx.rng("triples-mixed"), 3, ["balanced", "left-of-right", "right-of-left"], True, enum_stats["triples_mixed_shapes"])]
+        for g in gens:
+            for ops, sname, tree in g:
                 ci += 1
-        # ---- random trees ------------------------------------------------------------------------------
+                yield "triple", tree, ctxs[ci % 4]
         n_rand = ctx.n(200, 5000)
         rr = ctx.rng("random")
-        made = 0
-        tries = 0
+        made = tries = 0
         while made < n_rand and tries < n_rand * 30:
             tries += 1
             ty = rr.choice(["int", "int", "bool", "bool", "string"])
@@ -963,31 +958,145 @@ def run(ctx):
             t = random_tree(rr, ty, dmax)
             if t[0] not in ("bin", "un") or size(t) > 400 or not defined(t):
                 continue
-            if t[0] == "un" and t[2][0] == "int":
-                continue
-            items.append(("random", t, ctxs[made % 4]))
             made += 1
+            enum_stats["random"]["trees"] = made
+            yield "random", t, ctxs[made % 4]
 
-        # ---- build Tree objects; split off the known-finding positions -----------------------------------
-        normal = []          # Tree
-        pattern = {}         # class set -> [Tree]
-        skipped_undefined = 0
-        for grp, tree, c in items:
-            try:
+    S = {"hist": {}, "shapes": set(), "ntrees": 0, "whole_equal": 0, "known_batches": 0, "samples": [], "new_keys": 0, "bi": 0,
+         "pattern_counts": {}, "bound": 0, "normal": 0, "max_size": 0, "max_depth": 0, "by_group": {}, "watchdog": 0}
+    hist = S["hist"]
+
+    with Scratch("c07") as sc:
+        def do(job):
+            bi, (kind, lst) = job
+            d = sc.sub("b%06d" % bi)
+            o = compare(plain, d, lst)
+            if o.cls == "watchdog":
+                o = compare(plain, d, lst)
+            import shutil
+            shutil.rmtree(d, ignore_errors=True)
+            return kind, lst, o
+
+        def do1(job):
+            i, (t, o) = job
+            if o is None:
+                d = sc.sub("s%06d" % i)
+                o = compare(plain, d, [t])
+            return t, o
+
+        def process(batches):
+            """run a list of (kind, [Tree]) and account for the outcomes"""
+            jobs = []
+            for b in batches:
+                S["bi"] += 1
+                jobs.append((S["bi"], b))
+            singles = []
+            for kind, lst, o in pmap(do, jobs):
+                if o.cls == "watchdog":
+                    S["watchdog"] += len(lst)
+                    hist["watchdog"] = hist.get("watchdog", 0) + len(lst)
+                    continue
+                if o.cls == "prefix-rejected":
+                    # the prefix spelling is the reference: a skeleton nano_virt does not accept is a harness problem
+                    raise Inconclusive("nano_virt rejects the PREFIX spelling of a generated program: %s\n%s" % (o.detail, lst[0].prefix[:300]))
+                if o.cls == "agree":
+                    lab = "agree" if kind != "d" else "agree(deep)"
+                    hist[lab] = hist.get(lab, 0) + len(lst)
+                    for t in lst:
+                        S["ntrees"] += 1
+                        S["shapes"].add(t.key())
+                    S["whole_equal"] += len(lst) if o.whole_file_equal else 0
+                    if len(S["samples"]) < 3 and kind == "n" and len(lst[0].infix) > 12:
+                        S["samples"].append({"prefix": lst[0].prefix[:200], "infix": lst[0].infix[:200], "value": fmt(lst[0].value), "context": lst[0].ctx})
+                    if kind == "d" and len(S["samples"]) < 5 and "left-comb" in lst[0].origin:
+                        S["samples"].append({"deep": lst[0].origin, "infix_head": lst[0].infix[:80], "prefix_head": lst[0].prefix[:80], "value": fmt(lst[0].value)})
+                    continue
+                if kind == "p":
+                    # trees with a postfix operand behind an infix / unary operator: the known finding, by cause class
+                    S["known_batches"] += 1
+                    for t in lst:
+                        S["ntrees"] += 1
+                        hist["known:" + o.cls] = hist.get("known:" + o.cls, 0) + 1
+                        for c in sorted(t.classes):
+                            ctx.violation(c, "infix %s  <->  prefix %s: %s" % (t.infix, t.prefix, o.detail), o.files)
+                    continue
+                # a normal or deep batch that did not agree: attribute
+                if len(lst) == 1:
+                    singles.append((lst[0], o))
+                else:
+                    for t in (lst if o.bad is None else [lst[i] for i in o.bad]):
+                        singles.append((t, None))
+            # a broken parser makes every batch fail; a few hundred trees are enough to name the violation
+            room = max(0, 400 - S.get("singles_done", 0))
+            singles = singles[:room]
+            S["singles_done"] = S.get("singles_done", 0) + len(singles)
+            for t, o in pmap(do1, list(enumerate(singles))):
+                S["ntrees"] += 1
+                hist[o.cls] = hist.get(o.cls, 0) + 1
+                if o.cls in ("agree", "watchdog"):
+                    continue
+                if o.cls == "prefix-rejected":
+                    raise Inconclusive("nano_virt rejects the PREFIX spelling: %s\n%s" % (o.detail, t.prefix[:300]))
+                small = None
+                if S["new_keys"] < 6:
+                    want_cls = o.cls
+
+                    def fails(cand, _w=want_cls):
+                        try:
+                            ct = Tree(cand, "let")
+                        except (Undefined, ValueError, KeyError):
+                            return False
+                        if ct.classes:
+                            return False
+                        return compare(plain, sc.sub("shrink"), [ct]).cls == _w
+                    try:
+                        start = inline_binds(t.tree, dict((n, ev(l)) for n, ty, l in t.binds)) if t.binds else t.tree
+                        if not t.binds or fails(start):
+                            small = shrink(start, fails)
+                    except Exception:
+                        small = None
+                S["new_keys"] += 1
+                if small is not None:
+                    k = shape_key(small)
+                    key = "shape|%s|%s|%s|%s" % (o.cls, " ".join(k[0]), k[1], ",".join(k[2]))
+                else:
+                    # only the first few disagreements of a run are reduced to their smallest failing tree
+                    key = "shape|%s|not-reduced" % o.cls
+                    small = t.tree
+                st = Tree(small, "let") if small is not t.tree else t
+                files = dict(o.files)
+                files["smallest.txt"] = "infix:  %s\nprefix: %s\nvalue:  %s\n" % (st.infix, st.prefix, fmt(st.value))
+                ctx.violation(key[:240], "infix `%s` and prefix `%s` (value %s) do not denote the same program: %s\n(smallest failing tree: `%s`)" % (
+                    t.infix[:300], t.prefix[:300], fmt(t.value), o.detail, st.infix[:200]), files)
+
+        def chunk_batches(chunk):
+            """Tree objects of one chunk; trees with a known-finding position go into batches of their own (grouped by
+            class set) and their bound variant into the normal batches"""
+            normal = []
+            pattern = {}
+            for grp, tree, c in chunk:
                 T = Tree(tree, c, origin=grp)
-            except Undefined:
-                skipped_undefined += 1
-                continue
-            if T.classes:
-                pattern.setdefault(T.classes, []).append(T)
-                st_, binds = substituted(tree)
-                S = Tree(st_, c, binds=binds, origin=grp + "+bound")
-                if S.classes:
-                    raise Inconclusive("substitution left a known-finding position in %s" % S.infix)
-                S.parent = T
-                normal.append(S)
-            else:
-                normal.append(T)
+                S["by_group"][grp] = S["by_group"].get(grp, 0) + 1
+                S["max_size"] = max(S["max_size"], size(tree))
+                if grp == "random":
+                    S["max_depth"] = max(S["max_depth"], depth_of(tree))
+                if T.classes:
+                    pattern.setdefault(T.classes, []).append(T)
+                    ck = ",".join(sorted(T.classes))
+                    S["pattern_counts"][ck] = S["pattern_counts"].get(ck, 0) + 1
+                    st_, binds = substituted(tree)
+                    B = Tree(st_, c, binds=binds, origin=grp + "+bound")
+                    if B.classes:
+                        raise Inconclusive("substitution left a known-finding position in %s" % B.infix)
+                    normal.append(B)
+                    S["bound"] += 1
+                else:
+                    normal.append(T)
+            S["normal"] += len(normal)
+            out = [("n", normal[i:i + BATCH]) for i in range(0, len(normal), BATCH)]
+            for cs, lst in sorted(pattern.items(), key=lambda kv: sorted(kv[0])):
+                out += [("p", lst[i:i + BATCH]) for i in range(0, len(lst), BATCH)]
+            return out, normal
 
         # ---- the parser's nesting limit (measured) --------------------------------------------------------
         def compiles(depth, kind="right-nested-int"):
@@ -1019,168 +1128,76 @@ def run(ctx):
             for dp in depths:
                 if dp < 2:
                     continue
-                dd = dp          # the prefix spelling of a left comb / unary chain nests as deep as the chain is long
-                try:
-                    deep.append(Tree(deep_tree(kind, dd, dr), "let", origin="deep:%s:%d" % (kind, dd)))
-                except Undefined:
-                    pass
+                # the prefix spelling of a left comb / unary chain nests as deep as the chain is long
+                deep.append(Tree(deep_tree(kind, dp, dr), "let", origin="deep:%s:%d" % (kind, dp)))
+        process([("d", [t]) for t in deep])
 
-        # ---- control: source positions do not reach the module -------------------------------------------------
-        if normal:
-            d = sc.sub("poscontrol")
-            base = program(normal[:BATCH], "infix")
-            moved = "\n\n\n" + "\n".join(("      " + l if l.startswith("    ") else "\n" + l) for l in base.split("\n"))
-            mods = []
-            for name, text in (("a", base), ("b", moved)):
-                with open(os.path.join(d, name + ".nano"), "w") as f:
-                    f.write(text)
-                r = sh([plain.nano_virt, name + ".nano", "--emit-nvm", "-o", name + ".nvm"], cwd=d, cpu=20)
-                ctx.require(r.rc == 0 and os.path.exists(os.path.join(d, name + ".nvm")), "position control did not compile")
-                with open(os.path.join(d, name + ".nvm"), "rb") as f:
-                    mods.append(f.read())
-            ctx.require(mods[0] == mods[1], "moving the source text (lines, columns) changes the module: byte equality is not the right relation")
+        # ---- the enumerations and the random trees, chunk by chunk --------------------------------------------
+        first = True
+        chunk = []
 
-        # ---- run -------------------------------------------------------------------------------------------
-        batches = [("n", normal[i:i + BATCH]) for i in range(0, len(normal), BATCH)]
-        for cs, lst in sorted(pattern.items(), key=lambda kv: sorted(kv[0])):
-            batches += [("p", lst[i:i + BATCH]) for i in range(0, len(lst), BATCH)]
-        batches += [("d", [t]) for t in deep]
+        def flush():
+            nonlocal first, chunk
+            if not chunk:
+                return
+            batches, normal = chunk_batches(chunk)
+            if first and normal:
+                first = False
+                # control: source positions do not reach the module
+                d = sc.sub("poscontrol")
+                base = program(normal[:BATCH], "infix")
+                moved = "\n\n\n" + "\n".join(("      " + l if l.startswith("    ") else "\n" + l) for l in base.split("\n"))
+                mods = []
+                for name, text in (("a", base), ("b", moved)):
+                    with open(os.path.join(d, name + ".nano"), "w") as f:
+                        f.write(text)
+                    r = sh([plain.nano_virt, name + ".nano", "--emit-nvm", "-o", name + ".nvm"], cwd=d, cpu=20)
+                    ctx.require(r.rc == 0 and os.path.exists(os.path.join(d, name + ".nvm")), "position control did not compile")
+                    with open(os.path.join(d, name + ".nvm"), "rb") as f:
+                        mods.append(f.read())
+                ctx.require(mods[0] == mods[1], "moving the source text (lines, columns) changes the module: byte equality is not the right relation")
+            process(batches)
+            chunk = []
 
-        def do(job):
-            bi, (kind, lst) = job
-            d = sc.sub("b%05d" % bi)
-            o = compare(plain, d, lst)
-            if o.cls == "watchdog":
-                o = compare(plain, d, lst)
-            return kind, lst, o
+        for it in stream():
+            chunk.append(it)
+            if len(chunk) >= CHUNK:
+                flush()
+        flush()
 
-        results = pmap(do, list(enumerate(batches)))
-        hist = {}
-        shapes = set()
-        ntrees = 0
-        whole_equal = 0
-        singles = []          # Trees that must be looked at one by one
-        known_batches = 0
-        samples = []
-        for kind, lst, o in results:
-            if o.cls == "watchdog":
-                hist["watchdog"] = hist.get("watchdog", 0) + len(lst)
-                continue
-            if o.cls == "prefix-rejected":
-                # the prefix spelling is the reference: a skeleton nano_virt does not accept is a harness problem
-                raise Inconclusive("nano_virt rejects the PREFIX spelling of a generated program: %s\n%s" % (o.detail, lst[0].prefix[:300]))
-            if o.cls == "agree":
-                for t in lst:
-                    ntrees += 1
-                    shapes.add(t.key())
-                    lab = "agree" if kind != "d" else "agree(deep)"
-                    hist[lab] = hist.get(lab, 0) + 1
-                whole_equal += len(lst) if o.whole_file_equal else 0
-                if len(samples) < 3 and kind == "n" and len(lst[0].infix) > 12:
-                    samples.append({"prefix": lst[0].prefix[:200], "infix": lst[0].infix[:200], "value": fmt(lst[0].value), "context": lst[0].ctx})
-                if kind == "d" and len(samples) < 5 and "left-comb" in lst[0].origin:
-                    samples.append({"deep": lst[0].origin, "infix_head": lst[0].infix[:80], "prefix_head": lst[0].prefix[:80], "value": fmt(lst[0].value)})
-                continue
-            if kind == "p":
-                # trees with a postfix operand behind an infix / unary operator: the known finding, by cause class
-                known_batches += 1
-                for t in lst:
-                    ntrees += 1
-                    hist["known:" + o.cls] = hist.get("known:" + o.cls, 0) + 1
-                    for c in sorted(t.classes):
-                        ctx.violation(c, "infix %s  <->  prefix %s: %s" % (t.infix, t.prefix, o.detail), o.files)
-                continue
-            # a normal or deep batch that did not agree: attribute
-            cand = lst if o.bad is None else [lst[i] for i in o.bad]
-            if len(lst) == 1:
-                singles.append((lst[0], o))
-            else:
-                for t in cand:
-                    singles.append((t, None))
-        ctx.require(hist.get("watchdog", 0) <= max(2 * BATCH, ntrees // 50), "too many compilations hit the watchdog")
-
-        # ---- one by one: the trees of batches that disagreed ---------------------------------------------------
-        new_keys = 0
-        if len(singles) > 400:
-            # a broken parser makes every batch fail; a few hundred trees are enough to name the violation
-            singles = singles[:400]
-
-        def do1(job):
-            i, (t, o) = job
-            if o is None:
-                d = sc.sub("s%05d" % i)
-                o = compare(plain, d, [t])
-            return t, o
-
-        for t, o in pmap(do1, list(enumerate(singles))):
-            ntrees += 1
-            hist[o.cls] = hist.get(o.cls, 0) + 1
-            if o.cls in ("agree", "watchdog"):
-                continue
-            if o.cls == "prefix-rejected":
-                raise Inconclusive("nano_virt rejects the PREFIX spelling: %s\n%s" % (o.detail, t.prefix[:300]))
-            small = None
-            if new_keys < 6:
-                want_cls = o.cls
-
-                def fails(cand, _w=want_cls):
-                    try:
-                        ct = Tree(cand, "let")
-                    except (Undefined, ValueError, KeyError):
-                        return False
-                    if ct.classes:
-                        return False
-                    return compare(plain, sc.sub("shrink"), [ct]).cls == _w
-                try:
-                    start = inline_binds(t.tree, dict((n, ev(l)) for n, ty, l in t.binds)) if t.binds else t.tree
-                    if not t.binds or fails(start):
-                        small = shrink(start, fails)
-                except Exception:
-                    small = None
-            new_keys += 1
-            if small is not None:
-                k = shape_key(small)
-                key = "shape|%s|%s|%s|%s" % (o.cls, " ".join(k[0]), k[1], ",".join(k[2]))
-            else:
-                # only the first few disagreements of a run are reduced to their smallest failing tree
-                key = "shape|%s|not-reduced" % o.cls
-                small = t.tree
-            st = Tree(small, "let") if small is not t.tree else t
-            files = dict(o.files)
-            files["smallest.txt"] = "infix:  %s\nprefix: %s\nvalue:  %s\n" % (st.infix, st.prefix, fmt(st.value))
-            ctx.violation(key[:240], "infix `%s` and prefix `%s` (value %s) do not denote the same program: %s\n(smallest failing tree: `%s`)" % (
-                t.infix[:300], t.prefix[:300], fmt(t.value), o.detail, st.infix[:200]), files)
-
+        ntrees = S["ntrees"]
+        ctx.require(S["watchdog"] <= max(2 * BATCH, ntrees // 50), "too many compilations hit the watchdog")
         agree = hist.get("agree", 0) + hist.get("agree(deep)", 0)
         if not ctx.violations:
-            ctx.require(agree >= (len(normal) + len(deep)) * 0.9, "too few trees reached a verdict: %s" % hist)
+            ctx.require(agree >= (S["normal"] + len(deep)) * 0.9, "too few trees reached a verdict: %s" % hist)
             ctx.require(hist.get("agree(deep)", 0) >= len(deep) * 0.9, "deep expressions did not reach a verdict: %s" % hist)
+        tri = dict(enum_stats["triples"], operator_triples=len(ALL_OPS) ** 3, exhaustive=not quick,
+                   shapes=list(SHAPES3) if quick else ["left-comb", "right-nested"])
+        if not quick:
+            tri["mixed_shapes"] = dict(enum_stats["triples_mixed_shapes"], shapes=["balanced", "left-of-right", "right-of-left"], exhaustive=True)
         cov = {
             "evaluations": ntrees,
-            "distinct_nontrivial": len(shapes),
+            "distinct_nontrivial": len(S["shapes"]),
             "rule": "distinct (operator tuple in preorder incl. operators inside call arguments / under unary operators, tree shape, operand-kind tuple) "
                     "among trees whose two spellings compiled to identical CODE / function table / string pool and printed the reference value",
-            "trees": {"pairs": len(pairs), "triples": len(triples), "random": made, "deep": len(deep),
-                      "bound_variants_of_known_finding_trees": sum(1 for t in normal if t.binds)},
-            "pairs": {"operator_pairs": len(ALL_OPS) ** 2, "shapes": ["left-comb", "right-nested"], "typed_shapes": enum_stats["pairs"]["typed_shapes"],
-                      "type_correct_pair_x_shape": enum_stats["pairs"]["type_correct"], "pair_x_shape_without_typing": enum_stats["pairs"]["without_any_typing"],
-                      "operand_kinds": "one-factor: every leaf position x every operand kind, the other leaves random" if quick else
-                                       "cartesian: every combination of operand kinds over the three leaves", "exhaustive": True},
-            "triples": dict(enum_stats.get("triples", enum_stats.get("triples_sampled")), operator_triples=len(ALL_OPS) ** 3,
-                            exhaustive=not quick, **({} if quick else {"mixed_shapes": enum_stats["triples_mixed_shapes"]})),
-            "enumeration": enum_stats,
+            "trees": dict(S["by_group"], deep=len(deep), bound_variants_of_known_finding_trees=S["bound"]),
+            "pairs": dict(enum_stats["pairs"], operator_pairs=len(ALL_OPS) ** 2, shapes=["left-comb", "right-nested"], exhaustive=True,
+                          operand_kinds="one-factor: every leaf position x every operand kind, the other leaves random" if quick else
+                                        "cartesian: every combination of operand kinds over the three leaves"),
+            "triples": tri,
             "nesting_limit_measured": limit,
             "deep_depths": depths,
+            "deep_kinds": DEEP_KINDS,
             "outcomes": dict(sorted(hist.items())),
-            "trees_with_known_finding_position": {",".join(sorted(k)): len(v) for k, v in pattern.items()},
-            "known_finding_batches": known_batches,
-            "whole_nvm_files_identical": whole_equal,
-            "max_tree_size": max([size(t.tree) for t in normal] or [0]),
-            "max_random_depth": max([depth_of(t.tree) for t in normal if t.origin.startswith("random")] or [0]),
-            "samples": samples,
+            "trees_with_known_finding_position": dict(sorted(S["pattern_counts"].items())),
+            "known_finding_batches": S["known_batches"],
+            "whole_nvm_files_identical": S["whole_equal"],
+            "max_tree_size": S["max_size"],
+            "max_random_depth": S["max_depth"],
+            "samples": S["samples"],
         }
         return ctx.finish(cov, assumptions=[
-            "codegen emits no source positions (no OP_DEBUG_LINE, no DEBUG section: checked on every module), so byte equality of CODE, function table and string pool is the right relation",
+            "codegen emits no source positions (no DEBUG section / flag: checked on every module; a program whose text is moved by lines and columns compiles to the same bytes: checked in every run), so byte equality of CODE, function table and string pool is the right relation",
             "unary minus directly as a call argument is written (- x): `(f a -x)` is the juxtaposition a - x; unary minus is not applied to literals (`-5` is one token in either spelling)",
             "division / modulo operands are drawn so that every divisor is non-zero, also in operands that short-circuiting would skip",
             "trees containing a field access / tuple index behind an infix or bare unary operator are reported under the known cause keys; the same trees with those operands bound to a local are checked by the normal oracle",
